@@ -604,3 +604,51 @@ def register(reg):
     for w, m_, c_ in ((worlds.SERVER, 'server', 'Server'), (worlds.ASYNC_SERVER, 'async_server', 'AsyncServer')):
         for k in session_contracts(w, m_, c_):
             reg.add(k)
+
+
+# ---------------------------------------------------------------------------- session() context manager (C16)
+def session_cm_contracts(world, m_, c_):
+    from pyvc.contract import delegated
+    from pyvc.vals import Obj
+    T = '%s.%s.session' % (m_, c_)
+    CV = {'sid': 'V', 'namespace': 'V'}
+
+    def me(eng, ctx):
+        """the context manager object as session() builds it"""
+        return ctx.alloc('rec', {'server': Obj('server'), 'sid': ctx.lookup('sid') if False else S(z3.Const('p_sid', V)),
+                                 'namespace': S(z3.Const('p_namespace', V)), 'session': S(z3.Const('cm_session', V))}, cls='_session_context_manager')
+
+    def entered(c):
+        d = delegated(c, 'get_session', dict(sid=c.a.sid, namespace=c.a.namespace), 'return')
+        calls = [n for n in c.ctx.notes if n[0] == 'called']
+        me_ = c.vals['self']
+        held = c.ctx.heap[me_.id].data.get('session')
+        d['the-session-is-returned-and-remembered'] = z3.BoolVal(held is not None) if held is None else z3.And(c.res_v() == c.v(held))
+        ns = eff_ns(c.a.namespace)
+        e = transport(c.pre, ns, c.a.sid)
+        s1 = c.post.get(*SESS)
+        d['it-is-the-stored-session-of-this-client-and-namespace'] = z3.And(s1.c['dom'][e], s1.c['.dom'][e][ns], c.res_v() == s1.c['..'][e][ns])
+        return d
+
+    def exited(c):
+        me_ = c.vals['self']
+        held0 = z3.Const('cm_session', V)
+        return delegated(c, 'save_session', dict(sid=c.a.sid, session=held0, namespace=c.a.namespace), 'return')
+    req = lambda c: dict(struct(c.pre), **{'client-is-connected': member(c.pre, eff_ns(c.a.namespace), NONE, c.a.sid)})
+    a_ = 'a' if c_.startswith('Async') else ''
+    return [
+        Contract(target=T + '>__%senter__' % a_, schema=world, self_obj='server', self_rec=me, params={}, closure_vars=CV, requires=req,
+                 cases=[Case('enters', result='V', post=entered)], modifies=[SESS], props=['C16']),
+        Contract(target=T + '>__%sexit__' % a_, schema=world, self_obj='server', self_rec=me, params={'args': ('seq', 'tuple')}, closure_vars=CV, requires=req,
+                 cases=[Case('saves-what-the-block-worked-on', post=exited)], modifies=[SESS], props=['C16']),
+    ]
+
+
+_register4 = register
+
+
+def register(reg):
+    _register4(reg)
+    for w, m_, c_ in ((worlds.SERVER, 'server', 'Server'), (worlds.ASYNC_SERVER, 'async_server', 'AsyncServer')):
+        for k in session_cm_contracts(w, m_, c_):
+            reg.add(k)
